@@ -31,6 +31,10 @@ pub struct Case {
     pub pre_existing: bool,
     pub mode: Mode,
     pub budget: u64,
+    /// instead of a write fault: a non-empty directory sits at the final path of this output
+    /// file, so that putting the finished file in place (rename) fails at that moment
+    #[serde(default)]
+    pub obstruct: Option<String>,
 }
 
 /// `jbkv create-child <spec.json> <destdir> <name>`: the process that is killed.
@@ -70,6 +74,8 @@ pub struct Prepared {
     pub total: u64,
     pub bounds: Vec<u64>,
     pub final_size: u64,
+    /// output files other than the entry point
+    pub other_files: Vec<String>,
     /// cumulated bytes at which the first output file reaches its final name is unknown to the
     /// shim; classes use the position relative to the whole stream instead
     pub name: String,
@@ -137,7 +143,8 @@ pub fn prepare(name: &str, spec: &ContainerSpec, old_spec: &ContainerSpec, scrat
     // and the fault-free result equals the model
     let c = jbk::reader::Container::new(cdir.join("a.jbk")).map_err(|e| format!("fault-free result unreadable: {e}"))?;
     verify_container(&c, &built.model, "").map_err(|f| format!("fault-free result differs from the model: {} {}", f.sig, f.msg))?;
-    Ok(Prepared { spec: spec.clone(), old_spec: old_spec.clone(), model: built.model, old_dir, old_main, spec_path, total, bounds, final_size, name: name.to_string() })
+    let other_files = built.files.iter().filter(|f| f.as_str() != "a.jbk").cloned().collect();
+    Ok(Prepared { spec: spec.clone(), old_spec: old_spec.clone(), model: built.model, old_dir, old_main, spec_path, total, bounds, final_size, other_files, name: name.to_string() })
 }
 
 pub fn examine(dest: &Path, prep_model: &ContainerModel, old_main: Option<&[u8]>) -> (DestState, usize) {
@@ -193,6 +200,30 @@ pub fn run_case(p: &Prepared, pre_existing: bool, mode: Mode, budget: u64, dest:
     RunInfo { child_end: end, state, leftovers }
 }
 
+/// rename-failure variant: no write fault, but `file` cannot be put in place
+pub fn run_obstructed(p: &Prepared, pre_existing: bool, file: &str, dest: &Path) -> RunInfo {
+    let _ = std::fs::remove_dir_all(dest);
+    std::fs::create_dir_all(dest).unwrap();
+    if pre_existing {
+        copy_files(&p.old_dir, dest);
+    }
+    let ob = dest.join(file);
+    let _ = std::fs::remove_file(&ob);
+    std::fs::create_dir_all(ob.join("occupied")).unwrap();
+    let end = run_child(&p.spec_path, dest, &[("JBKV_MODE", "count".to_string()), ("JBKV_DIR", dest.to_string_lossy().to_string())]);
+    let (state, leftovers) = examine(dest, &p.model, if pre_existing { Some(&p.old_main) } else { None });
+    RunInfo { child_end: end, state, leftovers }
+}
+
+pub fn judge_obstructed(p: &Prepared, file: &str, info: &RunInfo) -> Option<Failure> {
+    match &info.state {
+        DestState::Bad(sig, msg) => Some(Failure::new(format!("obstructed:{sig}"), format!("{file} cannot be renamed into place: child {}: {msg}", info.child_end))),
+        DestState::NewOk => Some(Failure::new("obstructed:complete-container-without-its-file", format!("{file} could not be put in place, yet the destination reads as the complete new container (spec {})", p.name))),
+        _ if info.child_end == "success" => Some(Failure::new("obstructed:success-reported", format!("{file} could not be put in place and creation reports success"))),
+        _ => None,
+    }
+}
+
 pub fn judge(p: &Prepared, budget: u64, info: &RunInfo) -> Option<Failure> {
     if let DestState::Bad(sig, msg) = &info.state {
         return Some(Failure::new(sig.clone(), format!("budget {budget}/{}: child {}: {msg}", p.total, info.child_end)));
@@ -228,6 +259,14 @@ pub fn replay_child_cmd(path: &Path) -> i32 {
             return 1;
         }
     };
+    if let Some(file) = &case.obstruct {
+        let info = run_obstructed(&p, case.pre_existing, file, &scratch.path().join("dest"));
+        if let Some(f) = judge_obstructed(&p, file, &info) {
+            println!("FAIL {}\u{1}{}", f.sig, f.msg.replace('\n', " "));
+            return 1;
+        }
+        return 0;
+    }
     // a crash point is re-run 5 times (thread scheduling may move which write hits the budget)
     for _ in 0..5 {
         let info = run_case(&p, case.pre_existing, case.mode, case.budget, &scratch.path().join("dest"));
@@ -306,7 +345,7 @@ pub fn check_cmd(tier: Tier) -> i32 {
             Ok(p) => preps.push((p, *stride)),
             Err(e) => {
                 // the fault-free path itself is broken: that is a violation of "budget >= total must succeed"
-                let saved = SavedFailure { property: id.into(), sig: "fault-free-run-broken".into(), msg: e.clone(), case: serde_json::to_value(Case { spec: spec.clone(), old_spec: old_spec_for(spec), pre_existing: false, mode: Mode::Enospc, budget: u64::MAX / 2 }).unwrap(), note: format!("spec {name}") };
+                let saved = SavedFailure { property: id.into(), sig: "fault-free-run-broken".into(), msg: e.clone(), case: serde_json::to_value(Case { spec: spec.clone(), old_spec: old_spec_for(spec), pre_existing: false, mode: Mode::Enospc, budget: u64::MAX / 2, obstruct: None }).unwrap(), note: format!("spec {name}") };
                 if known.contains(&saved.sig) {
                     continue;
                 }
@@ -317,6 +356,30 @@ pub fn check_cmd(tier: Tier) -> i32 {
             }
         }
     }
+    // rename failures: every output file other than the entry point x {fresh, pre-existing}
+    let mut obstruct_runs = 0u64;
+    for (p, _) in &preps {
+        for file in &p.other_files {
+            for pre in [false, true] {
+                let dest = scratch.path().join("dest-obstruct");
+                let info = run_obstructed(p, pre, file, &dest);
+                obstruct_runs += 1;
+                *summary.merged.classes.entry(format!("obstructed-rename:{}", match &info.state { DestState::Absent => "absent", DestState::Old => "old", DestState::NewOk => "new-ok", DestState::Bad(..) => "BAD" })).or_default() += 1;
+                if let Some(f) = judge_obstructed(p, file, &info) {
+                    if known.contains(&f.sig) {
+                        *summary.merged.excluded_known.entry(f.sig).or_default() += 1;
+                        continue;
+                    }
+                    let saved = SavedFailure { property: id.into(), sig: f.sig.clone(), msg: f.msg.clone(), case: serde_json::to_value(Case { spec: p.spec.clone(), old_spec: p.old_spec.clone(), pre_existing: pre, mode: Mode::Enospc, budget: 0, obstruct: Some(file.clone()) }).unwrap(), note: format!("rename of {file} obstructed; spec {}", p.name) };
+                    let path = save_replay(id, &format!("s{seed}-obstruct-{}-{}", p.name, file.replace('.', "_")), &saved);
+                    println!("VIOLATION property={id} replay={}", path.display());
+                    eprintln!("  sig={} msg={}", f.sig, f.msg);
+                    summary.violations.push((f.sig, path));
+                }
+            }
+        }
+    }
+    summary.merged.evaluations += obstruct_runs;
     // crash points
     struct Job {
         prep: usize,
@@ -433,7 +496,7 @@ pub fn check_cmd(tier: Tier) -> i32 {
     summary.merged.excluded_known = t.excluded;
     for (k, (sig, (f, prep, pre, mode, budget))) in t.failures.into_iter().enumerate() {
         let p = &preps[prep].0;
-        let saved = SavedFailure { property: id.into(), sig: sig.clone(), msg: f.msg.clone(), case: serde_json::to_value(Case { spec: p.spec.clone(), old_spec: p.old_spec.clone(), pre_existing: pre, mode, budget }).unwrap(), note: format!("smallest failing budget of signature; spec {}", p.name) };
+        let saved = SavedFailure { property: id.into(), sig: sig.clone(), msg: f.msg.clone(), case: serde_json::to_value(Case { spec: p.spec.clone(), old_spec: p.old_spec.clone(), pre_existing: pre, mode, budget, obstruct: None }).unwrap(), note: format!("smallest failing budget of signature; spec {}", p.name) };
         let path = save_replay(id, &format!("s{seed}-{k}"), &saved);
         println!("VIOLATION property={id} replay={}", path.display());
         eprintln!("  sig={sig} msg={}", f.msg);
